@@ -17,6 +17,18 @@ CHECKS["C11"] = dict(level="exploration",
    text="Hypothesis histories of appends (record batches with exact / NULL / missing / unknown-key / wrong-typed / out-of-range values, or pre-built parquet files, under every kind of schema= argument, fresh or reused handles, schemaful and legacy schemaless tables). A raise must leave pointer, snapshot list, rows and reachable set unchanged (independent reader); an accepted append must read back exactly the values as represented by the declared type through every read API and the independent reader, values the type cannot represent must have been rejected, and equality/range filters on every column must agree with the reference evaluator. Sampled search with shrinking.",
    note="'As represented by the declared type' is an explicit function in the check (float32 round-trip, exact int<->float only, UTF-8 for str<->bytes); conversions whose admissibility the statement leaves open (bool->numeric, datetime->date, epoch ints into temporal columns) are not generated. Rejecting is always allowed. One known finding (schemaless legacy tables accept divergent schemas) is listed in known_findings.json.",
    technique="property-based testing (Hypothesis), model of accepted rows + independent reader + reference filter evaluator", design="3/C11")
+CHECKS["C05"] = dict(level="exploration",
+   text="Model-based search over operation histories (appends, deletes, expiries, snapshot deletions, open/committed/rolled-back transactions, planted orphans, ageing, collections with grace 0/1h/10h) crossed with 17 spellings of the table location. For each collection the set of files it deleted is compared with an independently computed reachable set over all retained snapshots and with the files of live transactions; a raising collection must have deleted nothing; every retained snapshot must read back identical rows; old unprotected orphans must be gone. Sampled, shrunk on failure.",
+   note="Ages are set with utime; markers are kept fresh (a live transaction is one whose marker is < 24 h old). Local backend only in this check (S3 prefix spellings are covered in C20/C07 S3 variants).",
+   technique="stateful property-based testing (Hypothesis-generated histories) against a reference model + independent reachability oracle", design="3/C05")
+CHECKS["C09"] = dict(level="exploration",
+   text="Model-based search: after every step of a generated history (appends, manifest-rewriting deletes, expiries, snapshot deletions incl. the current one, retention, failed commits, planted orphans + garbage collection) every retained snapshot is re-read by an independent reader (checksums verified) and compared with the file set and rows recorded at its commit; snapshot lookups by id and by timestamp (at / just before / just after each recorded timestamp) are compared with the model; every data and manifest file is hashed across the history to detect in-place rewrites; deleting the current snapshot must repoint to the most recently committed survivor.",
+   note="Non-decreasing clocks only (real-like and coarse with equal milliseconds); backwards clocks are out of scope for the timestamp lookup (the statement does not say which rule wins) and are exercised in C15.",
+   technique="stateful property-based testing (Hypothesis histories), reference model + independent reader invariants after every step", design="3/C09")
+CHECKS["C15"] = dict(level="exploration",
+   text="(a) Model-based search: an independent invariant checker reads the metadata JSON and all manifests after every step of generated histories (incl. multi-op transactions, retention, metadata-log bound, failed commits) under real-like, coarse and backwards clocks: current retained, parents are retained true ancestors, sequence numbers strictly increase in commit order and never exceed a non-decreasing last_sequence_number, snapshot_log only retained snapshots in commit order, carried entries keep their original adding snapshot and sequence number, deletes remove exactly the named files, expiry/snapshot deletion remove exactly the right snapshots, the metadata log names existing, actually superseded versions, contiguous, in order, within the bound. (b) exhaustive enumeration of all parent functions on <=5 nodes x all kept subsets for the repointing routine (1.09 M evaluations).",
+   note="True ancestry comes from the model (the snapshot that was current at commit). (b) calls datashard.snapshot_manager.repoint_parents_to_surviving_ancestors directly and is skipped with a note if that symbol disappears.",
+   technique="stateful property-based testing (Hypothesis histories) with an independent metadata invariant checker + exhaustive small-domain enumeration", design="3/C15")
 NOT_YET = {}
 
 def main():
